@@ -687,6 +687,19 @@ pub(crate) fn openat2<Fd: AsFd, P: AsRef<Path>>(
     let mut how = how.clone();
     how.flags |= libc::O_CLOEXEC as u64;
 
+    // A path with an interior NUL byte cannot be passed to the kernel (it
+    // would silently be cut short at the NUL). Like rustix does for every
+    // other wrapper, refuse such paths.
+    if path.as_os_str().as_bytes().contains(&0) {
+        return Err(Error::Openat2 {
+            dirfd: dirfd.into(),
+            path: path.into(),
+            how,
+            size: std::mem::size_of::<OpenHow>(),
+            source: Errno::INVAL,
+        });
+    }
+
     // SAFETY: Obviously safe-to-use Linux syscall.
     let fd = unsafe {
         libc::syscall(
